@@ -9,7 +9,9 @@ modelled structurally (par2fun = Map . inner.par2fun, fun2par = inner.fun2par . 
 cube (exact rationals) and exp (tagged pre-image) maps and stacks of two maps.  mode "seq": behaviours Use / Set on ONE
 object (public setters: grid, Discrete.variables; also of the geometry inside a MappedGeometry); after every action the
 object must answer like a freshly constructed geometry with the current settings (SeqFresh).  This module drives the real
-cuqi.geometry / Samples / CUQIarray objects through every emitted case.
+cuqi.geometry / Samples / CUQIarray objects through every emitted case.  Batches and sample sets have 1, 2 and 3 columns
+(Widths): the specification emits par2fun of every column, the shapes of a sample set of Ns samples in its three forms and Ns
+(SamplesShape: per-sample shape, then Ns - the sample axis is never dropped, also for ONE sample; deviation batchfast).
 """
 META = {
     "claimed": True,
@@ -24,9 +26,11 @@ META = {
              "projections; it explores the Samples / CUQIarray conversion automaton with explicit content for trails "
              "of <=3 conversions (FlagsLegal, Lossless) and behaviours of <=3/4 uses and public reassignments (grid, "
              "variables; also of the geometry inside a wrapper) on one object (SeqFresh: the object answers like a fresh "
-             "geometry with the current settings); ten named deviations must each violate their invariant. The "
-             "harness applies the real maps to basis vectors, ramps and batches of width 2 and 3, reads the step "
-             "partition through fun2par, replays every conversion behaviour comparing flags and content after "
+             "geometry with the current settings); sample sets hold 1, 2 and 3 samples and the array shape is part of the "
+             "state (SamplesShape: per-sample shape, then Ns); eleven named deviations must each violate their invariant. The "
+             "harness applies the real maps to basis vectors, ramps and batches of width 1, 2 and 3, reads the step "
+             "partition through fun2par, converts sample sets of 1, 2 and 3 samples on every configuration (shape, Ns, flags, "
+             "content, round trips), replays every conversion behaviour comparing flags, array shape, Ns and content after "
              "every action, and replays every use / reassign behaviour on one real object comparing after every action."),
     "note": ("Bounded sizes; KLExpansion is specified abstractly in the sine basis written in its docstring (decay 2, "
              "normalizer 12; compared to 1e-10), KLExpansion_Full / CustomKL / FEniCS geometries are not modelled. "
@@ -35,7 +39,9 @@ META = {
              "setters are reassigned (grid, variables); a refused assignment is accepted; length of `variables` after a "
              "reassignment is an observation. "
              "Batch behaviour is asserted for par2fun everywhere and for fun2par of the continuous, KL and step "
-             "geometries; Image2D.fun2par on batches and Continuous2D.fun2vec are observations. A grid node that "
+             "geometries; Image2D.fun2par and fun2vec / vec2fun on batches and Continuous2D.fun2vec are observations, as is "
+             "whether a geometry map returns the batch axis for a one-column input (both forms are accepted; Samples "
+             "conversions must keep it). A grid node that "
              "coincides with an interior step boundary may be assigned to either neighbouring step (observation) as long "
              "as the steps still partition the grid; step grids are built with np.linspace from correctly rounded "
              "end points."),
@@ -50,6 +56,8 @@ import numpy as np
 
 DEVIATIONS = [("openfirst", "PartitionInv"), ("batchmix", "ColumnwiseInv"), ("ravelC", "RoundTripInv"), ("stalekl", "RoundTripInv"),
               ("vectorsetspar", "Lossless"),
+              # a Samples conversion that hands the whole array to the (squeezing) geometry map: one sample loses its axis
+              ("batchfast", "SamplesShape"),
               # MappedGeometry.fun2par = imap . inner.fun2par (IMapAfterInnerFun2Par): mapped KL round trip; mapped step projection
               ("imapafter", "MappedRoundTripInv"), ("imapafter_proj", "MappedProjectionInv"),
               # a public setter that does not recompute / forget what was derived from the old value
@@ -328,6 +336,36 @@ def _call(f, *a):
         return f(*a)
 
 
+# batch widths / numbers of samples every batch facet runs with (Widths of the specification)
+WIDTHS = (1, 2, 3)
+
+
+def _obs_batch(ctx, name, okind, W, value):
+    """observation per (kind / class, width); configurations of one kind that disagree are all kept"""
+    o = ctx.observations.setdefault(name, {}).setdefault(okind, {})
+    k = "W=%d" % W
+    if k in o and o[k] != value:
+        value = sorted(set((o[k] if isinstance(o[k], list) else [o[k]]) + [value]), key=str)
+    o[k] = value
+
+
+def _batch_axis(ctx, name, okind, W, expected, result, documented):
+    """The result of a geometry map for a W-column input.  For ONE column the batch axis of the result may be present or
+    removed (the docstrings of the maps speak of `a single function if only one parameter vector was given`): both are
+    accepted and brought to the stacked form; which one occurs, and whether it is the shape the specification's
+    squeeze rule gives (`documented`, [] where it is silent), is an observation."""
+    try:
+        R = np.asarray(result, dtype=float)
+    except Exception:       # noqa: BLE001
+        return result
+    if name is not None and documented:
+        o = ctx.observations.setdefault("map_batch_result_shape_as_specified", {}).setdefault(name, {}).setdefault(okind, {})
+        o["W=%d" % W] = bool(tuple(R.shape) == tuple(documented)) and o.get("W=%d" % W, True)
+    if W == 1 and R.shape == expected.shape[:-1]:
+        return R[..., np.newaxis]
+    return R
+
+
 # ---------------------------------------------------------------------------------------------------------------
 # StepExpansion: partition read through the public maps
 def check_step_partition(ctx, case, G):
@@ -537,37 +575,111 @@ def check_maps(ctx, case):
                     g1, g2, max(tol, 1e-11) if not m.maps else max(1e-9, m.rt_tol(tol, m.node(g0))))
         except Exception as ex:     # noqa: BLE001
             ctx.mismatch("raises/%s/idempotent/proj=%s" % (key, pr), case, "second round trip raised: %r" % (ex,))
-    # --- batches: column-wise action
-    for W in (2, 3):
+    # --- batches of 1, 2 and 3 columns: column-wise action.  The specification supplies par2fun of every column (bcols)
+    #     and the shapes (bshape); a result for ONE column may come with or without its batch axis (observation)
+    okind = ("mapped/" if m.maps else "") + c["kind"] + "/" + c["cls"]
+    spec_cols = conv_value(m, case["bcols"], False, False, not m.two)
+    batches = {}
+    for W in WIDTHS:
+        bs = case["bshape"][W - 1]
         P = np.array([[i + 1 + 10 * w for w in range(W)] for i in range(d)], dtype=float)
         EF = np.stack([m.p2f(P[:, w]) for w in range(W)], axis=-1)
+        if steps_status in (None, "exact"):
+            if not close(spec_cols[..., :W], EF, max(tol, TOL)) or tuple(bs["fun"]) != EF.shape or tuple(bs["par"]) != P.shape:
+                from cuqiverif.core import MachineryError
+                raise MachineryError("the specification's batch columns / shapes disagree with its own index maps for %s" % key)
+            EF = spec_cols[..., :W].copy()
+        batches[W] = (P, EF)
         ctx.case(("batch_p2f", key, W), facet="batch")
         sig = "%s/par2fun_batch/W=%d" % (key, W)
         try:
             FB = _call(G.par2fun, P.copy())
+            FB = _batch_axis(ctx, "par2fun", okind, W, EF, FB, bs["map_fun"])
             ok = compare(ctx, sig, case, "par2fun of a matrix of columns is not column-wise par2fun", EF, FB, tol)
         except Exception as ex:     # noqa: BLE001
             ctx.mismatch("raises/" + sig, case, "par2fun raised on a (par_dim, %d) matrix: %r" % (W, ex))
             ok = False
         asserted = not m.maps and (c["kind"] in ("kl", "step") or (c["kind"] == "ident" and c["cls"] != "Discrete") or
                                    (c["kind"] == "image" and c["cls"] == "Continuous2D"))
-        okind = ("mapped/" if m.maps else "") + c["kind"] + "/" + c["cls"]
         sig = "%s/fun2par_batch/W=%d" % (key, W)
         try:
             PB = _call(G.fun2par, EF.copy())
             if asserted:
                 ctx.case(("batch_f2p", key, W), facet="batch")
+                PB = _batch_axis(ctx, "fun2par", okind, W, P, PB, bs["map_par"])
                 compare(ctx, sig, case, "fun2par of stacked functions is not column-wise fun2par", P, PB, max(tol, 1e-11))
             else:
+                PB = _batch_axis(ctx, None, okind, W, P, PB, None)
                 same = np.shape(PB) == P.shape and close(PB, P, 1e-10)
-                ctx.observations.setdefault("fun2par_batch_columnwise", {})[okind] = bool(same)
+                _obs_batch(ctx, "fun2par_batch_columnwise", okind, W, bool(same))
         except Exception as ex:     # noqa: BLE001
             if asserted:
                 ctx.mismatch("raises/" + sig, case, "fun2par raised on stacked functions: %r" % (ex,))
             else:
-                ctx.observations.setdefault("fun2par_batch_columnwise", {})[okind] = type(ex).__name__
+                _obs_batch(ctx, "fun2par_batch_columnwise", okind, W, type(ex).__name__)
+        # the vector-form maps are documented for one function only: their action on stacks is recorded
+        if m.has_vec:
+            EV = np.stack([m.f2v(EF[..., w]) for w in range(W)], axis=-1)
+            for name, fn, arg, want in (("vec2fun", G.vec2fun, EV, EF), ("fun2vec", G.fun2vec, EF, EV)):
+                try:
+                    R = _batch_axis(ctx, None, okind, W, want, _call(fn, arg.copy()), None)
+                    same = np.shape(R) == want.shape and close(R, want, 1e-10)
+                    _obs_batch(ctx, name + "_batch_columnwise", okind, W, bool(same))
+                except Exception as ex:     # noqa: BLE001
+                    _obs_batch(ctx, name + "_batch_columnwise", okind, W, type(ex).__name__)
+    check_sample_sets(ctx, case, G, m, tol, batches)
     if m.maps:
         check_mapped_objects(ctx, case, G, m, tol)
+
+
+def check_sample_sets(ctx, case, G, m, tol, batches):
+    """Sample sets of Ns = 1, 2 and 3 parameter samples on EVERY configuration, through all three forms: the function
+    values of a set of Ns samples are the per-sample par2fun stacked along the last axis, with Ns samples (also for
+    Ns = 1); vector form and parameters likewise; round trips are lossless.  Shapes, Ns and the vector flag are those the
+    specification emitted for the width (bshape), the content its columns (bcols)."""
+    from cuqi.samples import Samples
+    c = case["c"]
+    key = ckey(c)
+    for W in WIDTHS:
+        bs = case["bshape"][W - 1]
+        P, EF = batches[W]
+        rt = max(m.rt_tol(max(tol, 1e-11), m.p2f_inner(P[:, w])) for w in range(W))
+        S0 = Samples(P.copy(), geometry=G)
+        objs = {"": S0}
+        steps = [("funvals", "", "funvals", EF, bs["fun"], (False, bs["fun_is_vec"]), tol),
+                 ("funvals-parameters", "funvals", "parameters", P, bs["par"], (True, True), rt)]
+        if m.has_vec:
+            EV = np.stack([m.f2v(EF[..., w]) for w in range(W)], axis=-1)
+            steps += [("funvals-vector", "funvals", "vector", EV, bs["vec"], (False, True), tol),
+                      ("funvals-vector-funvals", "funvals-vector", "funvals", EF, bs["fun"], (False, bs["fun_is_vec"]), tol),
+                      ("funvals-vector-parameters", "funvals-vector", "parameters", P, bs["par"], (True, True), rt)]
+        for name, src, op, exp, shape, flags, t in steps:
+            if src not in objs:
+                continue                     # the conversion this one starts from already disagreed
+            ctx.case(("sample_set", key, W, name), facet="sample_sets")
+            sig = "%s/samples/Ns=%d/%s" % (key, W, name)
+            try:
+                obj = _call(lambda: getattr(objs[src], op))
+                got = obj.samples
+                ns, got_shape = obj.Ns, tuple(np.shape(got))
+                got_flags = (bool(obj.is_par), bool(obj.is_vec))
+            except Exception as ex:     # noqa: BLE001
+                ctx.mismatch("raises/" + sig, case, "conversion of a set of %d sample(s) raised: %r" % (W, ex))
+                continue
+            if got_shape != tuple(shape) or ns != bs["ns"]:
+                ctx.mismatch("samples_shape/" + sig, case, "a set of Ns = %d sample(s) converted by .%s does not hold Ns values of the "
+                             "per-sample shape stacked along the last axis" % (W, name.replace("-", ".")),
+                             {"shape": list(shape), "Ns": bs["ns"]}, {"shape": list(got_shape), "Ns": ns})
+                continue
+            if got_flags != flags:
+                ctx.mismatch("samples_flags/" + sig, case, "representation flags (is_par, is_vec) of the converted sample set",
+                             list(flags), list(got_flags))
+                continue
+            if compare(ctx, sig, case, "converted sample set is not the per-sample map of the specification stacked along the last axis",
+                       exp, got, t):
+                objs[name] = obj
+        if not np.array_equal(np.asarray(S0.samples, dtype=float), P):
+            ctx.mismatch("conv_source/%s/samples/Ns=%d" % (key, W), case, "conversions altered the sample set they were called on", P, S0.samples)
 
 
 def check_mapped_objects(ctx, case, G, m, tol):
@@ -578,29 +690,33 @@ def check_mapped_objects(ctx, case, G, m, tol):
     c = case["c"]
     key = ckey(c)
     d = m.par_dim
-    P = np.array([[(i + 1) * (1 if w == 0 else -1) + 3 * w for w in range(3)] for i in range(d)], dtype=float)
-    EF = np.stack([m.p2f(P[:, w]) for w in range(P.shape[1])], axis=-1)
-    rt = max(m.rt_tol(max(tol, 1e-11), m.p2f_inner(P[:, w])) for w in range(P.shape[1]))
+    P3 = np.array([[(i + 1) * (1 if w == 0 else -1) + 3 * w for w in range(3)] for i in range(d)], dtype=float)
     ctx.case(("mapped_objects", key), facet="mapped_objects")
-    steps = [("array/funvals", lambda: np.asarray(CUQIarray(P[:, 1].copy(), geometry=G).funvals), EF[..., 1], tol),
-             ("array/funvals-parameters", lambda: np.asarray(CUQIarray(P[:, 1].copy(), geometry=G).funvals.parameters), P[:, 1], rt),
-             ("array/fun/parameters", lambda: np.asarray(CUQIarray(EF[..., 1].copy(), is_par=False, geometry=G).parameters), P[:, 1], rt),
-             ("samples/funvals", lambda: Samples(P.copy(), geometry=G).funvals.samples, EF, tol),
-             ("samples/funvals-parameters", lambda: Samples(P.copy(), geometry=G).funvals.parameters.samples, P, rt)]
-    if m.has_vec:
-        EV = np.stack([m.f2v(EF[..., w]) for w in range(P.shape[1])], axis=-1)
-        steps += [("samples/funvals-vector", lambda: Samples(P.copy(), geometry=G).funvals.vector.samples, EV, tol),
-                  ("samples/funvals-vector-funvals", lambda: Samples(P.copy(), geometry=G).funvals.vector.funvals.samples, EF, tol),
-                  ("samples/funvals-vector-parameters", lambda: Samples(P.copy(), geometry=G).funvals.vector.parameters.samples, P, rt)]
-    for name, fn, exp, t in steps:
-        sig = "%s/%s" % (key, name)
-        try:
-            got = _call(fn)
-        except Exception as ex:     # noqa: BLE001
-            ctx.mismatch("raises/" + sig, case, "conversion on a mapped geometry raised: %r" % (ex,))
-            continue
-        compare(ctx, sig, case, "conversion of a geometry-carrying object on a mapped geometry is not the per-sample "
-                "map of the specification (par2fun = map . inner.par2fun, fun2par = inner.fun2par . imap)", exp, got, t)
+    # three samples, and ONE sample (the column with negative entries) as a sample set of its own
+    for P, tag in ((P3, ""), (P3[:, 1:2], "/Ns=1")):
+        EF = np.stack([m.p2f(P[:, w]) for w in range(P.shape[1])], axis=-1)
+        rt = max(m.rt_tol(max(tol, 1e-11), m.p2f_inner(P[:, w])) for w in range(P.shape[1]))
+        k1 = P.shape[1] - 2                 # the column the CUQIarray facets use (1 of three)
+        steps = [("samples/funvals", lambda P=P: Samples(P.copy(), geometry=G).funvals.samples, EF, tol),
+                 ("samples/funvals-parameters", lambda P=P: Samples(P.copy(), geometry=G).funvals.parameters.samples, P, rt)]
+        if not tag:
+            steps = [("array/funvals", lambda: np.asarray(CUQIarray(P[:, k1].copy(), geometry=G).funvals), EF[..., k1], tol),
+                     ("array/funvals-parameters", lambda: np.asarray(CUQIarray(P[:, k1].copy(), geometry=G).funvals.parameters), P[:, k1], rt),
+                     ("array/fun/parameters", lambda: np.asarray(CUQIarray(EF[..., k1].copy(), is_par=False, geometry=G).parameters), P[:, k1], rt)] + steps
+        if m.has_vec:
+            EV = np.stack([m.f2v(EF[..., w]) for w in range(P.shape[1])], axis=-1)
+            steps += [("samples/funvals-vector", lambda P=P: Samples(P.copy(), geometry=G).funvals.vector.samples, EV, tol),
+                      ("samples/funvals-vector-funvals", lambda P=P: Samples(P.copy(), geometry=G).funvals.vector.funvals.samples, EF, tol),
+                      ("samples/funvals-vector-parameters", lambda P=P: Samples(P.copy(), geometry=G).funvals.vector.parameters.samples, P, rt)]
+        for name, fn, exp, t in steps:
+            sig = "%s/%s%s" % (key, name, tag)
+            try:
+                got = _call(fn)
+            except Exception as ex:     # noqa: BLE001
+                ctx.mismatch("raises/" + sig, case, "conversion on a mapped geometry raised: %r" % (ex,))
+                continue
+            compare(ctx, sig, case, "conversion of a geometry-carrying object on a mapped geometry is not the per-sample "
+                    "map of the specification (par2fun = map . inner.par2fun, fun2par = inner.fun2par . imap)", exp, got, t)
 
 
 # ---------------------------------------------------------------------------------------------------------------
@@ -622,12 +738,15 @@ def conv_value(m, case_val, par, vec, fun1d):
 
 
 def replay_conv_group(ctx, mcase, group):
-    """group: all emitted behaviours of one (configuration, rep, origin); replayed along the trie of trails."""
+    """group: all emitted behaviours of one (configuration, rep, origin, number of samples); replayed along the trie of
+    trails.  A sample set holds Ns = 1, 2 or 3 samples; after every action the shape of the array and Ns are those of the
+    specification (per-sample shape, then Ns - also for one sample)."""
     from cuqi.samples import Samples
     from cuqi.array import CUQIarray
     c = group[0]["c"]
     key = ckey(c)
-    rep, origin = group[0]["rep"], group[0]["origin"]
+    rep, origin, ns = group[0]["rep"], group[0]["origin"], group[0]["ns"]
+    rkey = "%s/Ns=%d" % (rep, ns) if rep == "samples" else rep
     m = Model(dict(mcase, c=c))
     fun1d = not m.two
     by_trail = {tuple(g["trail"]): g for g in group}
@@ -642,9 +761,9 @@ def replay_conv_group(ctx, mcase, group):
 
     def check(obj, g):
         trail = "-".join(g["trail"]) or "init"
-        sig = "%s/%s/origin=%s/trail=%s" % (key, rep, origin, trail)
-        case = {"kind": "conv", "c": c, "rep": rep, "origin": origin, "trail": g["trail"]}
-        ctx.case(("conv", key, rep, origin, trail), facet="conv_" + rep)
+        sig = "%s/%s/origin=%s/trail=%s" % (key, rkey, origin, trail)
+        case = {"kind": "conv", "c": c, "rep": rep, "origin": origin, "ns": ns, "trail": g["trail"]}
+        ctx.case(("conv", key, rkey, origin, trail), facet="conv_" + rep)
         ok = True
         if bool(obj.is_par) != g["par"] or (rep == "samples" and bool(obj.is_vec) != g["vec"]):
             ctx.mismatch("conv_flags/" + sig, case, "representation flags after the conversions differ from the automaton",
@@ -657,6 +776,14 @@ def replay_conv_group(ctx, mcase, group):
         got = obj.samples if rep == "samples" else np.asarray(obj)
         if rep == "array":
             exp = exp[..., 0]
+        if exp.shape != tuple(g["shape"]) or (rep == "samples" and exp.shape[-1] != g["ns"]):
+            from cuqiverif.core import MachineryError
+            raise MachineryError("conv case %s: emitted shape %r does not fit the emitted content" % (sig, g["shape"]))
+        if rep == "samples" and (tuple(np.shape(got)) != tuple(g["shape"]) or obj.Ns != g["ns"]):
+            ctx.mismatch("conv_shape/" + sig, case, "the array of the sample set is not the per-sample shape followed by the number "
+                         "of samples / Ns differs", {"shape": list(g["shape"]), "Ns": g["ns"]},
+                         {"shape": list(np.shape(got)), "Ns": obj.Ns})
+            return False
         ok &= compare(ctx, "conv/" + sig, case, "content after the conversions is not the specification's (lossless, per-sample maps)",
                       exp, got, tol)
         return ok
@@ -672,9 +799,9 @@ def replay_conv_group(ctx, mcase, group):
             try:
                 nxt = _call(lambda: getattr(obj, op))
             except Exception as ex:     # noqa: BLE001
-                sig = "%s/%s/origin=%s/trail=%s" % (key, rep, origin, "-".join(t2))
+                sig = "%s/%s/origin=%s/trail=%s" % (key, rkey, origin, "-".join(t2))
                 unit = (1 in m.fun_shape or m.par_dim == 1) and "broadcast" in str(ex)
-                ctx.mismatch(("shape_unitdim/conv_raises/" if unit else "conv_raises/") + sig, {"kind": "conv", "c": c, "rep": rep, "origin": origin, "trail": list(t2)},
+                ctx.mismatch(("shape_unitdim/conv_raises/" if unit else "conv_raises/") + sig, {"kind": "conv", "c": c, "rep": rep, "origin": origin, "ns": ns, "trail": list(t2)},
                              "conversion raised: %r" % (ex,))
                 continue
             walk(nxt, t2)
@@ -683,7 +810,7 @@ def replay_conv_group(ctx, mcase, group):
     walk(obj0, ())
     now = obj0.samples if rep == "samples" else np.asarray(obj0)
     if not np.array_equal(np.asarray(now, dtype=float), before if rep == "samples" else before[..., 0]):
-        ctx.mismatch("conv_source/%s/%s/origin=%s" % (key, rep, origin), {"kind": "conv", "c": c, "rep": rep, "origin": origin, "trail": []},
+        ctx.mismatch("conv_source/%s/%s/origin=%s" % (key, rkey, origin), {"kind": "conv", "c": c, "rep": rep, "origin": origin, "ns": ns, "trail": []},
                      "conversions altered the object they were called on", before, now)
     return len(group)
 
@@ -889,11 +1016,18 @@ class _SeqReplay:
         if what == "conv":
             from cuqi.samples import Samples
             from cuqi.array import CUQIarray
-            P = np.stack([ramp, 3 - ramp], axis=-1)
-            EF = np.stack([m.p2f(P[:, w]) for w in range(2)], axis=-1)
-            for name, fn, e, t in (("samples/funvals", lambda: Samples(P.copy(), geometry=G).funvals.samples, EF, tol),
-                                   ("samples/funvals-parameters", lambda: Samples(P.copy(), geometry=G).funvals.parameters.samples, P, rt),
-                                   ("array/funvals-parameters", lambda: np.asarray(CUQIarray(P[:, 1].copy(), geometry=G).funvals.parameters), P[:, 1], rt)):
+            # a sample set of 1, 2 or 3 samples: the width follows the position in the behaviour (all three at the end)
+            P3 = np.stack([ramp, 3 - ramp, 2 * ramp - 5], axis=-1)
+            steps = []
+            for W in (WIDTHS if at == "end" else (WIDTHS[at % 3],)):
+                P = P3[:, :W]
+                EF = np.stack([m.p2f(P[:, w]) for w in range(W)], axis=-1)
+                rtw = max([rt] + [m.rt_tol(max(tol, 1e-11), m.p2f_inner(P[:, w])) for w in range(2, W)])
+                nm = "samples/" if W == 2 else "samples/Ns=%d/" % W
+                steps += [(nm + "funvals", lambda P=P: Samples(P.copy(), geometry=G).funvals.samples, EF, tol),
+                          (nm + "funvals-parameters", lambda P=P: Samples(P.copy(), geometry=G).funvals.parameters.samples, P, rtw)]
+            steps.append(("array/funvals-parameters", lambda: np.asarray(CUQIarray(P3[:, 1].copy(), geometry=G).funvals.parameters), P3[:, 1], rt))
+            for name, fn, e, t in steps:
                 try:
                     got = _call(fn)
                 except Exception as ex:     # noqa: BLE001
@@ -989,7 +1123,7 @@ def _cases(ctx, tier):
         convs = {}
         for k in res.cases:
             if k["kind"] == "conv":
-                convs.setdefault((ckey(k["c"]), k["rep"], k["origin"]), []).append(k)
+                convs.setdefault((ckey(k["c"]), k["rep"], k["origin"], k["ns"]), []).append(k)
         seqs = {(ckey(k["c0"]), seq_trail_key(k["c0"], k["trail"])): k for k in res.cases if k["kind"] == "seq"}
         _t.cleanup(res)
         if not maps or not convs or not seqs:
@@ -998,9 +1132,34 @@ def _cases(ctx, tier):
     return _CASES[tier]
 
 
-def _vacuity(maps, seqs):
+def _vacuity(maps, seqs, convs):
     """what the strengthened facets need from the specification's enumeration"""
     from cuqiverif.core import MachineryError
+    # batch widths: every maps case carries columns and shapes for 1, 2 and 3 columns; every image class has 1 x n and
+    # n x 1 grids; sample sets of 1, 2 and 3 samples go through the conversion automaton for every kind / class
+    if any(len(k.get("bcols", ())) != len(WIDTHS) or [b["ns"] for b in k.get("bshape", ())] != list(WIDTHS) for k in maps.values()):
+        raise MachineryError("vacuous: a maps case without batch columns / shapes for the widths %r" % (WIDTHS,))
+    thin = {(k["c"]["cls"], k["c"]["r"] == 1) for k in maps.values()
+            if k["c"]["kind"] == "image" and not k["c"]["maps"] and min(k["c"]["r"], k["c"]["cc"]) == 1 < max(k["c"]["r"], k["c"]["cc"])}
+    classes = ("Image2D_C", "Image2D_F", "Visual_C", "Visual_F", "Default2D", "Continuous2D")
+    miss = [(cls, row) for cls in classes for row in (True, False) if (cls, row) not in thin]
+    if miss:
+        raise MachineryError("vacuous: no 1 x n / n x 1 image emitted for %r" % (miss,))
+    sets = set()
+    for (key, rep, origin, ns), grp in convs.items():
+        if rep == "samples" and any(len(g["trail"]) >= 2 for g in grp):
+            c = grp[0]["c"]
+            sets.add((("mapped/" if c["maps"] else "") + c["kind"], c["cls"], ns, origin))
+            if c["kind"] == "image" and not c["maps"] and min(c["r"], c["cc"]) == 1 < max(c["r"], c["cc"]):
+                sets.add(("thin", c["cls"], ns, origin))
+    need = [(kind, cls, ns, origin) for ns in WIDTHS for origin in ("par", "fun")
+            for kind, cls in [("ident", "Continuous1D"), ("ident", "Default1D"), ("ident", "Discrete"), ("kl", "KLExpansion"),
+                              ("step", "StepExpansion"), ("mapped/ident", "Continuous1D"), ("mapped/image", "Image2D_F"),
+                              ("mapped/image", "Image2D_C"), ("mapped/image", "Continuous2D"), ("mapped/kl", "KLExpansion"),
+                              ("mapped/step", "StepExpansion")] + [(k, cls) for cls in classes for k in ("image", "thin")]]
+    miss = [x for x in need if x not in sets]
+    if miss:
+        raise MachineryError("vacuous: no sample-set conversion behaviour emitted for %r" % (miss[:5],))
     have = set()
     for k in maps.values():
         c = k["c"]
@@ -1028,7 +1187,7 @@ def run(ctx, only=None, only_seq=None):
     from cuqiverif.core import MachineryError
     if only is None and only_seq is None:
         maps, convs, seqs = _cases(ctx, ctx.tier)
-        _vacuity(maps, seqs)
+        _vacuity(maps, seqs, convs)
         run_deviations(ctx)
     else:
         maps, convs, seqs = _cases(ctx, "quick")
@@ -1042,8 +1201,8 @@ def run(ctx, only=None, only_seq=None):
         kk = ("mapped/" if maps[key]["c"]["maps"] else "") + maps[key]["c"]["kind"]
         kinds[kk] = kinds.get(kk, 0) + 1
     nbeh = 0
-    for (key, rep, origin) in sorted(convs):
-        grp = convs[(key, rep, origin)]
+    for (key, rep, origin, ns) in sorted(convs):
+        grp = convs[(key, rep, origin, ns)]
         mk = _maps_like(grp[0]["c"])
         if only_seq is not None or (only is not None and mk != only and key != only):
             continue
@@ -1064,16 +1223,18 @@ def run(ctx, only=None, only_seq=None):
             + [k for k in ks if k.startswith("mapped/inner=step/") and k.endswith("map=cube")][:1]:
         mc = maps[pick]
         ctx.sample({"maps": {k: mc[k] for k in ("c", "par_shape", "fun_shape", "funvec_shape", "index", "stepof", "boundary", "g0", "f0", "p2f",
-                                                "f2p", "f2p_mean")}})
-    g = [x for x in convs.get(("image/Image2D_F/r=2/c=3", "samples", "par"), []) if x["trail"] == ["funvals", "vector"]]
-    if g:
-        ctx.sample({"conv": g[0]})
+                                                "f2p", "f2p_mean", "bshape")}})
+    for w in (2, 1):
+        g = [x for x in convs.get(("image/Image2D_F/r=2/c=3", "samples", "par", w), []) if x["trail"] == ["funvals", "vector"][:w]]
+        if g:
+            ctx.sample({"conv": g[0]})
     sq = [seqs[k] for k in sorted(seqs) if k[0].startswith("kl/") and "set_grid" in k[1] and k[1].startswith("use_")][:1]
     if sq:
         ctx.sample({"seq": sq[0]})
     ctx.rule = ("one case per geometry configuration (maps; mapped geometries: every inner kind x map stack) x input (basis vectors, "
-                "two ramps, a function outside the range, batches of width 2 and 3, CUQIarray / Samples round trips), one per "
-                "conversion behaviour (configuration, Samples / CUQIarray, origin, trail) and one per action of every use / "
+                "two ramps, a function outside the range, batches of width 1, 2 and 3, sample sets of 1, 2 and 3 samples through "
+                "funvals / vector / parameters, CUQIarray / Samples round trips), one per conversion behaviour (configuration, "
+                "Samples of 1, 2, 3 samples / CUQIarray, origin, trail) and one per action of every use / "
                 "reassign behaviour on one object, all emitted by TLC from Geometry.tla")
     ctx.exhaustive = True
     ctx.traces = nbeh + nseq + (len(maps) if only is None and only_seq is None else 0)
